@@ -4,6 +4,7 @@ import LruMem.Model.Ptr
 import LruMem.Model.Panic
 import LruMem.Model.PanicB
 import LruMem.Model.Arith
+import LruMem.Model.CloneFrom
 /-!
 # `lrudriver`: replays the harness's operation lines on the Level A model
 
@@ -304,16 +305,17 @@ def processLine (s : St) (line : String) : St × String :=
         match s.get? i, s.get? j with
         | some (c, cb), some (d, db0) =>
           -- a panic of `Clone`/`Hash` while the clone is being built: `*d = c.clone()` never assigns, `d` is as it was
-          if (match pk with | some (kind, n) => decide (n ≤ cbCount kind (clone c base).2.1) | none => false) then
+          -- (`Model/CloneFrom.lean`: `cloneFromP`, `cloneFrom`; theorems in `Props/C14c.lean`)
+          if (match pk with | some (kind, n) => cloneFires c base kind n | none => false) then
             match pk with
             | some (kind, n) =>
-              let r := stepP s.p c (.cloneProbe base) {} kind n
-              (s, resLine s.p (mode == "F") true { r with cache := d } (some d))
+              let r := cloneFromP s.p d c base kind n
+              (s, resLine s.p (mode == "F") true r (some d))
             | none => (s, "bad-op")
           else
-          let r := clone c base
+          let r := cloneFrom d c base
           let db := cb.map (·.clone base)
-          let res : Res := { cache := r.1, out := .cloned, evs := r.2.1 ++ dropCache d, status := r.2.2 }
+          let res : Res := { cache := r.1, out := .cloned, evs := r.2.1, status := r.2.2 }
           let oldUb := match db0 with | some b => b.dropCache.ub | none => false
           (s.set j (some (r.1, db.map compactB)), resLine s.p (mode == "F") true res (some r.1)
             (if oldUb then "ub" else match db with | some x => lbStr r.1 x | none => "ok"))
